@@ -59,15 +59,13 @@ func newTagItems(tag string) tagItems {
 
 // injectTag 注入 tag
 func injectTag(contents []byte, area textArea) (injected []byte) {
-	expr := make([]byte, area.End-area.Start)
-	copy(expr, contents[area.Start-1:area.End-1])
 	oldTag := newTagItems(area.CurrentTag)   // 原来的 tag
 	injectTag := newTagItems(area.InjectTag) // 待注入的 tag
 	finalTag := oldTag.override(injectTag)
-	expr = rInject.ReplaceAllLiteral(expr, []byte(fmt.Sprintf("`%s`", finalTag.format())))
-	injected = append(injected, contents[:area.Start-1]...)
-	injected = append(injected, expr...)
-	injected = append(injected, contents[area.End-1:]...)
+	// 只替换 tag 字面量本身, 字段里其他的反引号(如: 内嵌 struct 的 tag)不受影响
+	injected = append(injected, contents[:area.TagStart-1]...)
+	injected = append(injected, []byte(fmt.Sprintf("`%s`", finalTag.format()))...)
+	injected = append(injected, contents[area.TagEnd-1:]...)
 	return
 }
 
